@@ -332,6 +332,40 @@ func vh_C05_twin_Set() {
 	}
 }
 
+// the twins built FROM A MAP agree on the same data: keys, values (Get / ContainsValue / Values) and what value-based
+// removal leaves
+func vh_C05_twin_SetFromMap() {
+	vfSetMapOrder(2)
+	k1, k2, v1, v2, x := vfInt("k1"), vfInt("k2"), vfInt("v1"), vfInt("v2"), vfInt("x")
+	vfAssume(k1 != k2)
+	g := SetFromMap(map[int]int{k1: v1, k2: v2})
+	t := SetForInterfaceFromMap(map[interface{}]interface{}{k1: v1, k2: v2})
+	ok := vfNoPanic("nopanic", func() {
+		vfAssert("frommap-size", g.Size() == t.Size())
+		vfAssert("frommap-containskey", g.ContainsKey(x) == t.ContainsKey(x))
+		vfAssert("frommap-get", vfAnd(t.Get(k1) == interface{}(g.Get(k1)), t.Get(k2) == interface{}(g.Get(k2))))
+		vfAssert("frommap-containsvalue", g.ContainsValue(x) == t.ContainsValue(x))
+		gr, tr := g.RemoveValues(v1), t.RemoveValues(v1)
+		vfAssert("frommap-removevalues", vfAnd(gr.ContainsKey(k1) == tr.ContainsKey(k1), gr.ContainsKey(k2) == tr.ContainsKey(k2)))
+	})
+	if ok {
+		vfReach("end")
+	}
+}
+
+// the variadic set functions called with NO operand at all: the twins agree, nothing panics
+func vh_C05_twin_NoOperands() {
+	ok := vfNoPanic("nopanic", func() {
+		vfAssert("intersection", len(Intersection[int]()) == len(IntersectionForInterface()))
+		vfAssert("intersection-key", len(IntersectionMapByKey[int, int]()) == len(IntersectionMapByKeyForInterface[int]()))
+		vfAssert("difference-member", len(Difference[int]()) == 0)
+		vfAssert("union", len(Union[int]()) == 0)
+	})
+	if ok {
+		vfReach("end")
+	}
+}
+
 func vh_C05_law_Set() {
 	vfSetMapOrder(3)
 	a, b := c05NonEmpty("a"), c05NonEmpty("b")
